@@ -1,6 +1,7 @@
 //! p2h: correspondence harness. `p2h emit <prop> <seed> <quick|thorough> <outdir>` runs the real
 //! plonky2 code on generated inputs and writes request lines (req.txt), the implementation's
 //! answers (impl.txt) and the input distribution (meta.json).
+mod c03;
 mod c04;
 mod c05;
 mod c07;
@@ -36,6 +37,7 @@ fn main() {
     let extra = serde_json::json!({});
     match prop {
         "c14" => c14::emit(&mut e, seed, thorough),
+        "c03" => c03::emit(&mut e, seed, thorough),
         "c04" => c04::emit(&mut e, seed, thorough),
         "c07" => c07::emit(&mut e, seed, thorough),
         "c05" => c05::emit(&mut e, seed, thorough),
